@@ -41,7 +41,12 @@ def e2e_job(ctx):
     # fault scenarios: a reset on either side (real RST from a real socket / RST_STREAM) is a failure of the whole tunnel
     f = ctx.tlc("MCPipeE2EF", "MCPipeE2EF.cfg", workers=4, timeout=900, coverage=False)
     ctx.spec_must_hold(f)
-    r = ctx.harness("c02e", ["--vectors", s["out"], "--fault-vectors", f["out"]], env={"VERIF_ROOT": ROOT}, timeout=1800)
+    # + Pipe.tla's TimedOut interleaved everywhere on the real endpoints: one direction streams 8 MiB while the other is silent
+    # and the tunnel's idle timeout is a few ms (the silent direction's expiry drops and restarts the busy direction's pending
+    # read / wait_writable hundreds of times): the relayed stream stays a correct prefix, and complete unless the idle timer ended it
+    r = ctx.harness("c02e", ["--vectors", s["out"], "--fault-vectors", f["out"], "--ticks", "1"], env={"VERIF_ROOT": ROOT}, timeout=1800)
+    if r["counters"].get("tick_expiries", 0) < 50 and not r.get("violations") and not any("watchdog" in n for n in r.get("notes", [])):
+        raise ToolError("the expiry stress saw only %d expiries" % r["counters"].get("tick_expiries", 0))
     return r
 
 
